@@ -29,6 +29,7 @@ pub struct PanicInfo {
 
 thread_local! {
     static LAST_PANIC: RefCell<Option<PanicInfo>> = RefCell::new(None);
+    static IN_CATCH: RefCell<u32> = RefCell::new(0);
 }
 static HOOK: Once = Once::new();
 
@@ -52,6 +53,10 @@ pub fn install_panic_hook() {
                     format!("{}:{}", f, l.line())
                 })
                 .unwrap_or_default();
+            if IN_CATCH.with(|c| *c.borrow()) == 0 {
+                // a panic of the harness itself: make it visible (worker stderr file)
+                eprintln!("HARNESS PANIC: {} at {:?}", msg, info.location());
+            }
             LAST_PANIC.with(|p| {
                 let mut p = p.borrow_mut();
                 // keep the FIRST panic of a case (a poisoned-mutex follow-up is not the cause)
@@ -67,7 +72,10 @@ pub fn install_panic_hook() {
 pub fn catch<T>(f: impl FnOnce() -> T) -> Result<T, PanicInfo> {
     install_panic_hook();
     LAST_PANIC.with(|p| *p.borrow_mut() = None);
-    match catch_unwind(AssertUnwindSafe(f)) {
+    IN_CATCH.with(|c| *c.borrow_mut() += 1);
+    let r = catch_unwind(AssertUnwindSafe(f));
+    IN_CATCH.with(|c| *c.borrow_mut() -= 1);
+    match r {
         Ok(v) => Ok(v),
         Err(_) => Err(LAST_PANIC
             .with(|p| p.borrow_mut().take())
